@@ -15,7 +15,7 @@ PROP = dict(
         "Shangrla.C04.raire_empty_witness", "Shangrla.C04.wrong_winner_empty", "Shangrla.C04.raire_no_exception",
         "Shangrla.C04.raire_terminates", "Shangrla.C04.raire_correct",
     ],
-    groups={"raire": (3000, 40000)},
+    groups={"raire": (3000, 120000)},
     design_ref="DESIGN.md section 5, C04; Appendix F",
     assumptions=[
         "the model's main loop is fuelled; raire_terminates proves that raireFuel(C, winner) iterations always suffice and "
